@@ -313,6 +313,44 @@ static InstResult run_escape(const std::vector<CrashInfo> &cr, size_t L) {
 	return E.finish();
 }
 
+// %s / %ls arguments that are NOT NUL-terminated inside their buffer: ISO C 7.21.6.1p8 allows that when the precision
+// does not exceed the array.  Every argument length 0..4 x every precision 0..length (literal and *) x width / '-' shapes,
+// the argument ending at a PROT_NONE page: nothing behind the precision may be read.
+static void unterminated_case(const char *format, ...) {
+	va_list args; va_start(args, format);
+	frg::va_struct vs; frg::arg arg_list[NL_ARGMAX + 1]; vs.arg_list = arg_list; va_copy(vs.args, args);
+	CountSink sink;
+	try { auto res = frg::printf_format(PAgent{&sink, &vs}, format, &vs); (void)res; } catch(const Panic &) { } catch(const CountSink::Flood &) { }
+	va_end(vs.args); va_end(args);
+	if(!sink.intact()) throw Violation{"C20", "printf:sink-canary", "memory next to the sink was overwritten"};
+}
+static InstResult run_unterminated(const std::vector<CrashInfo> &cr) {
+	Enumerator E("printf-unterminated-args", "C20", cr);
+	GuardBuf gf, ga;
+	for(size_t len = 0; len <= 4; len++) for(size_t prec = 0; prec <= len; prec++) for(int shape = 0; shape < 6; shape++) for(int wide = 0; wide < 2; wide++) {
+		std::string d = "%";
+		if(shape == 1 || shape == 4) d += "-";
+		if(shape >= 1 && shape != 5) d += "7";
+		bool star = shape == 3 || shape == 4;
+		d += star ? ".*" : "." + std::to_string(prec);
+		d += wide ? "ls" : "s";
+		d = "[" + d + "]";
+		E.eval("printf " + d + " arg-length=" + std::to_string(len) + " precision=" + std::to_string(prec), "printf.unterminated-arg", [&] {
+			const char *fmt = gf.place_cstr(d);
+			if(!wide) {
+				std::string a(len, 'x');
+				const char *arg = ga.place(a.data(), a.size());
+				if(star) unterminated_case(fmt, (int)prec, arg); else unterminated_case(fmt, arg);
+			} else {
+				std::vector<wchar_t> a(len, L'y');
+				const wchar_t *arg = ga.place<wchar_t>(a.data(), a.size());
+				if(star) unterminated_case(fmt, (int)prec, arg); else unterminated_case(fmt, arg);
+			}
+		});
+	}
+	return E.finish();
+}
+
 static std::vector<Instance> instances(const std::string &tier) {
 	bool th = tier == "thorough";
 	std::vector<Instance> v;
@@ -326,6 +364,7 @@ static std::vector<Instance> instances(const std::string &tier) {
 	for(int s = 0; s < NF; s++) add("fmt-parse-" + std::to_string(s), [=](const std::vector<CrashInfo> &cr) { return run_fmt(cr, th ? 8 : 6, s, NF); });
 	for(int s = 0; s < NC; s++) add("cmdline-parse-" + std::to_string(s), [=](const std::vector<CrashInfo> &cr) { return run_cmdline(cr, th ? 8 : 7, s, NC); });
 	add("printf-float-values", [=](const std::vector<CrashInfo> &cr) { return run_float_values(cr); });
+	add("printf-unterminated-args", [=](const std::vector<CrashInfo> &cr) { return run_unterminated(cr); });
 	add("escape_fmt", [=](const std::vector<CrashInfo> &cr) { return run_escape(cr, th ? 5 : 4); });
 	add("to_number-parse", [=](const std::vector<CrashInfo> &cr) { return run_tonumber(cr, th ? 8 : 6); });
 	return v;
